@@ -24,7 +24,52 @@ def sector_ground_energy(Hd, qd, L, total):
     return float(np.linalg.eigvalsh(Hs)[0])
 
 
+def complete_case(rng):
+    """'On a complete manifold with enough local Lanczos iterations the exact ground-state energy is reached': complete
+    manifolds without charges (maximal bond dimensions) and complete manifolds of charge sectors of the shape for which one
+    local problem of the sweep is the full sector problem (c09.splitting_exact)"""
+    import pytenet as ptn
+    from . import c09
+    two = bool(rng.random() < 0.5)
+    if rng.random() < 0.5:
+        L = int(rng.integers(2, 4)); qd = np.zeros(2, dtype=int)
+        H = evolib.hermitian_mpo(rng, L, qd, exact_vals=False)
+        psi = c09.full_mps(rng, L, qd, cplx=bool(rng.random() < 0.6)); total = 0
+    else:
+        L = int(rng.integers(2, 5))
+        H = ptn.heisenberg_xxz_mpo(L, float(rng.choice([1, -1.5, 4 / 3])), float(rng.choice([0.5, 1, -0.7])), float(rng.choice([0, 0.3])))
+        tot = sorted(c09._count(H.qd, L)); total = int(tot[int(rng.integers(0, len(tot)))])
+        psi = c09.sector_state(rng, L, H.qd, total, cplx=bool(rng.random() < 0.6))
+        if psi is None or not c09.splitting_exact(c09.bond_kinds(psi), two):
+            return None
+    Hd = dense_mpo(H)
+    if np.abs(Hd - Hd.conj().T).max() > 1e-12 or not np.any(Hd):
+        return None
+    e0 = sector_ground_energy(Hd, [int(q) for q in H.qd], L, total)
+    d = len(H.qd); D0 = list(psi.bond_dims)
+    numiter = (d * d if two else d) * max(D0) ** 2 + 2
+    numsweeps = int(rng.integers(1, 3))
+    what = f'{"two" if two else "single"}-site DMRG on a complete manifold (qd={list(map(int, H.qd))}, sector {total}, L={L}, D={D0}, numsweeps={numsweeps}, numiter={numiter})'
+    try:
+        if two:
+            en = ptn.calculate_ground_state_local_twosite(H, psi, numsweeps, numiter_lanczos=numiter, tol_split=0)
+        else:
+            en = ptn.calculate_ground_state_local_singlesite(H, psi, numsweeps, numiter_lanczos=numiter)
+    except Exception as ex:
+        return f'{what}: raises {type(ex).__name__}: {ex}'
+    tol = 1e-8 * max(1.0, np.abs(Hd).max())
+    if abs(en[-1] - e0) > tol:
+        return f'{what}: final energy {en[-1]} but the exact ground-state energy of the sector is {e0}'
+    return None
+
+
 def oracle_case(rng):
+    if rng.random() < 0.2:
+        return complete_case(rng)
+    return general_case(rng)
+
+
+def general_case(rng):
     import pytenet as ptn
     from .c03 import rnd_like
     two = bool(rng.random() < 0.5)
@@ -82,10 +127,10 @@ CORPUS = [(0, 3548), (0, 8656), (0, 17717), (0, 22456), (0, 33969), (0, 37641)]
 
 def search(tier, seed, hints, budget_s):
     for s0, it0 in CORPUS:
-        r = oracle_case(np.random.default_rng([s0, 1010, it0]))
+        r = general_case(np.random.default_rng([s0, 1010, it0]))
         if r is not None:
-            return {'key': f'c10:{s0}:{it0}', 'what': r,
-                    'replay': {'call': 'harness.props.c10.oracle_case(np.random.default_rng([seed, 1010, it]))', 'seed': s0, 'it': it0, 'observed': r}}
+            return {'key': f'c10:corpus:{s0}:{it0}', 'what': r,
+                    'replay': {'call': 'harness.props.c10.general_case(np.random.default_rng([seed, 1010, it]))', 'corpus': True, 'seed': s0, 'it': it0, 'observed': r}}
     t0 = time.time(); it = 0
     while time.time() - t0 < budget_s:
         r = oracle_case(np.random.default_rng([seed, 1010, it]))
@@ -101,6 +146,6 @@ def replay(rp):
         print('replay: no failing input recorded; obligations that no longer check:', json.dumps(rp.get('no_longer_checks'))[:2000])
         return 1
     r = rp['replay']
-    res = oracle_case(np.random.default_rng([r['seed'], 1010, r['it']]))
+    res = (general_case if r.get('corpus') else oracle_case)(np.random.default_rng([r['seed'], 1010, r['it']]))
     print('replay ->', res)
     return 1 if res else 0
